@@ -12,7 +12,7 @@ def c15_ancestor_not_later(ctx, v):
     """two chains that share blocks 1..=f (f symbolic) and differ afterwards — at every height
     above f the two nodes' longest-chain hashes differ in the two bytes the fork id samples
     (a 2^-16 coincidence per checkpoint is assumed away) —, peer tip P and my tip M symbolic with
-    f <= min(P, M) and all heights within the ring (<= 2 * genesis period, here 200 000):
+    f <= min(P, M) and both tips <= 120 (thorough: 600; the sampling loop forks twice per checkpoint, so longer chains are outside the bound):
         fid = peer.generate_fork_id(P);  a = mine.generate_last_shared_ancestor(P, fid)
     then a <= f  (a = 0 means "no shared ancestor found, sync from the start", also safe).
     Both branches (peer ahead / peer behind) and every checkpoint pattern are covered; no
@@ -22,17 +22,8 @@ def c15_ancestor_not_later(ctx, v):
     f = z3.BitVec("fork_point", 64)
     P = z3.BitVec("peer_tip", 64)
     M = z3.BitVec("my_tip", 64)
-    LIMIT = 200000
+    LIMIT = 120 if ctx.tier == "quick" else 600
     pre = [z3.ULE(f, P), z3.ULE(f, M), z3.ULE(P, LIMIT), z3.ULE(M, LIMIT), z3.UGE(P, 1), z3.UGE(M, 1)]
-    # byte j of the block hash at height h on each chain
-    common = z3.Function("common_byte", z3.BitVecSort(64), z3.BitVecSort(64), z3.BitVecSort(8))
-    peer_b = z3.Function("peer_byte", z3.BitVecSort(64), z3.BitVecSort(64), z3.BitVecSort(8))
-    mine_b = z3.Function("mine_byte", z3.BitVecSort(64), z3.BitVecSort(64), z3.BitVecSort(8))
-
-    def chain_hash(side, h):
-        j = z3.BitVec("j!%d" % next(counter), 64)
-        fn = peer_b if side == "peer" else mine_b
-        return S.Bytes(S.const_int(32, "usize"), z3.Lambda([j], z3.If(z3.ULE(h, f), common(h, j), fn(h, j))))
     import itertools
     counter = itertools.count()
 
@@ -40,13 +31,32 @@ def c15_ancestor_not_later(ctx, v):
         def hook(ex_, st, callee, args, dty):
             if re.search(r"BlockRing::get_longest_chain_block_hash_at_block_id$", callee):
                 h = args[1]
-                st.events.append(("ring", side, [h], None))
+                hv = ex_.fresh_value("[u8; 32]", "%s_hash!%d" % (side, next(counter)))
+                st.events.append(("ring", side, [h, hv], None))
                 present = z3.And(z3.UGE(h.bv, 1), z3.ULE(h.bv, tip))
-                return ("__fork__", [(present, mk_some(dty, chain_hash(side, h.bv))), (z3.Not(present), mk_none(dty))])
+                return ("__fork__", [(present, mk_some(dty, hv)), (z3.Not(present), mk_none(dty))])
             if re.search(r"Blockchain::get_latest_block_id$|BlockRing::get_latest_block_id$", callee):
                 return S.I(tip)
             return None
         return hook
+
+    def chain_facts(events):
+        """what the sampled hashes must satisfy: each chain is a function of the height; the two
+        chains agree up to the fork point and differ, in every sampled byte pair, above it"""
+        samples = [(e[1], e[2][0].bv, e[2][1]) for e in events if e[0] == "ring"]
+        sel = lambda b, k: z3.Select(b.arr, z3.BitVecVal(k, 64))
+        facts = []
+        for x in range(len(samples)):
+            for y in range(x):
+                (s1, h1, b1), (s2, h2, b2) = samples[x], samples[y]
+                same_h = h1 == h2
+                all_eq = z3.And(*[sel(b1, k) == sel(b2, k) for k in range(32)])
+                if s1 == s2:
+                    facts.append(z3.Implies(same_h, all_eq))
+                else:
+                    facts.append(z3.Implies(z3.And(same_h, z3.ULE(h1, f)), all_eq))
+                    facts.append(z3.Implies(z3.And(same_h, z3.UGT(h1, f)), z3.And(*[z3.Or(sel(b1, 2 * i) != sel(b2, 2 * i), sel(b1, 2 * i + 1) != sel(b2, 2 * i + 1)) for i in range(16)])))
+        return facts
 
     # phase 1: the peer computes its fork id
     ex = ctx.executor(loop_bound=20, inline="auto", max_paths=20000, no_inline=[r"get_longest_chain_block_hash_at_block_id$", r"get_latest_block_id$", r"hex::"])
@@ -74,11 +84,7 @@ def c15_ancestor_not_later(ctx, v):
         ex.on_call = ring_hook("mine", M)
         st2 = S.State()
         st2.pc.extend(a.pc)
-        # above the fork point the sampled bytes differ between the two chains
-        hh = z3.BitVec("hh", 64)
-        for i in range(16):
-            for b in (2 * i, 2 * i + 1):
-                pass
+        st2.events.extend([e for e in a.events if e[0] == "ring"])
         o2 = ex.run(anc, [S.Ref(S.Cell(S.Opaque("my_chain", "Blockchain"))), S.I(P), fid], st2)
         v.paths += len(o2)
         for o in o2:
@@ -93,13 +99,7 @@ def c15_ancestor_not_later(ctx, v):
             if o.kind != "return":
                 continue
             res = o.value
-            # distinctness assumption, instantiated at the heights this path actually sampled
-            sampled = [e[2][0].bv for e in o.events if e[0] == "ring"]
-            distinct = []
-            for h in sampled:
-                for i in range(16):
-                    for b in (2 * i,):
-                        distinct.append(z3.Implies(z3.UGT(h, f), z3.Or(peer_b(h, z3.BitVecVal(b, 64)) != mine_b(h, z3.BitVecVal(b, 64)), peer_b(h, z3.BitVecVal(b + 1, 64)) != mine_b(h, z3.BitVecVal(b + 1, 64)))))
+            distinct = chain_facts(o.events)
             r, m = ex.model_for(o.pc + distinct, z3.UGT(res.bv, f))
             v.queries += 1
             if r == z3.sat:
